@@ -270,10 +270,11 @@ class SchedReal:
 # with the integer specification; 2**-19 s is about 1.9 microseconds, at epoch scale.
 PERIODIC_SCALES = [
     (2.0 ** -19, 1700000000.0, "ms"),
-    (0.25, 50000.0, "timedelta"),
+    (2.0 ** -6, 50000.0, "timedelta"),     # 15.625 ms per tick: non-integral milliseconds, exact in float and in timedelta
     (1.0, 1700000000.0, "ms"),
     (0.25, 1234567.5, "ms"),
     (2.0 ** -10, 0.0, "ms"),
+    (0.25, 50000.0, "timedelta"),
 ]
 
 
